@@ -215,7 +215,18 @@ func TestCodec(t *testing.T) {
 				t.Fatal(err)
 			}
 			valid[string(b)] = true
-			cases = append(cases, caseRec{kind: "valid", bytes: b, want: canonMap(m), seq: i})
+			// the model decoder works on association lists and appends (quadratic in the number of sessions and of
+			// holds): tables of thousands of sessions or holds are checked by the write/read-back monitor below
+			// only, and counted
+			nholds := 0
+			for _, ls := range m {
+				nholds += len(ls)
+			}
+			if len(m) <= 2100 && nholds <= 3000 {
+				cases = append(cases, caseRec{kind: "valid", bytes: b, want: canonMap(m), seq: i})
+			} else {
+				res.Count("written-file-not-sent-to-the-model:more-than-2100-sessions-or-3000-holds")
+			}
 			// monitor (model independent): a second handle reads back an equal map. A file whose counts
 			// and lengths do not fit its size is read in a memory-limited child: store.Read may ask for
 			// terabytes on it (K6), which would end this process
